@@ -11,7 +11,7 @@ import (
 // structural clauses. Shared rules appear under several properties.
 var propRules = map[string][]string{
 	"C05": {"C05.R1", "C05.R1b", "C05.R2", "C05.R3", "C05.R4", "C10.R2", "C10.R4", "C06.R3", "C06.R4", "C06.R5"},
-	"C01": {"C01.R1", "C01.R2", "C01.R3", "C01.R4", "C01.R6", "C02.R4", "C12.R4", "C13.R3", "C13.R4", "C14.R1", "C03.R1"},
+	"C01": {"C01.R1", "C01.R2", "C01.R3", "C01.R4", "C01.R6", "C02.R4", "C11.R1", "C12.R4", "C13.R3", "C13.R4", "C14.R1", "C03.R1"},
 	"C02": {"C02.R1", "C02.R2", "C02.R3", "C02.R4", "C02.R5", "C02.R6", "C11.R4", "C10.R4", "C10.R5", "C12.R1", "C12.R4", "C01.R4"},
 	"C03": {"C03.R1", "C01.R1", "C03.R7", "C14.R1", "C14.R3", "C04.R2", "C04.R4", "C09.R3"},
 	"C04": {"C04.R1", "C04.R2", "C04.R4", "C02.R1", "C02.R2"},
@@ -29,7 +29,7 @@ var propRules = map[string][]string{
 	"C12": {"C12.R1", "C12.R2", "C12.R3", "C12.R4"},
 	"C13": {"C13.R1", "C13.R2", "C13.R3", "C13.R4", "C15.R5"},
 	"C11": {"C11.R1", "C11.R2", "C11.R4", "C06.R5", "C01.R4"},
-	"C06": {"C06.R1", "C06.R2", "C06.R3", "C06.R4", "C06.R5", "C12.R2", "C10.R5"},
+	"C06": {"C06.R1", "C06.R2", "C06.R3", "C06.R4", "C06.R5", "C12.R2", "C10.R5", "C17.R2"},
 }
 
 const (
